@@ -122,6 +122,48 @@ Check c14_frobenius : forall (n : nat) (A H Q : mat R), hessenberg n A = Ok (H, 
   Rfrob2 n H = Rfrob2 n A.
 Print Assumptions c14_frobenius.
 
+From SV Require Import Proofs.HessenAlg.
+(* consequences a caller relies on (Proofs/HessenAlg.v): H = Q^T A Q and A Q = Q H *)
+Theorem c14_similarity : forall (n : nat) (A H Q : mat R), hessenberg n A = Ok (H, Q) ->
+  meq n H (Rmm n (Rmm n (Rtr Q) A) Q) /\ meq n (Rmm n A Q) (Rmm n Q H).
+Proof. exact Proofs.HessenAlg.c14_similarity. Qed.
+Check c14_similarity : forall (n : nat) (A H Q : mat R), hessenberg n A = Ok (H, Q) ->
+  meq n H (Rmm n (Rmm n (Rtr Q) A) Q) /\ meq n (Rmm n A Q) (Rmm n Q H).
+Print Assumptions c14_similarity.
+
+(* a symmetric input gives a symmetric, hence tridiagonal, H *)
+Theorem c14_symmetric_tridiagonal : forall (n : nat) (A H Q : mat R), hessenberg n A = Ok (H, Q) ->
+  meq n (Rtr A) A ->
+  meq n (Rtr H) H /\
+  (forall i j, (i < n)%nat -> (j < n)%nat -> (i + 1 < j)%nat \/ (j + 1 < i)%nat -> H i j = 0).
+Proof. exact Proofs.HessenAlg.c14_symmetric_tridiagonal. Qed.
+Check c14_symmetric_tridiagonal : forall (n : nat) (A H Q : mat R), hessenberg n A = Ok (H, Q) ->
+  meq n (Rtr A) A ->
+  meq n (Rtr H) H /\
+  (forall i j, (i < n)%nat -> (j < n)%nat -> (i + 1 < j)%nat \/ (j + 1 < i)%nat -> H i j = 0).
+Print Assumptions c14_symmetric_tridiagonal.
+
+(* eigenpairs ([Rmv n M x] = M x): (lam, y) of H gives (lam, Q y) of A with Q^T (Q y) = y, so Q y <> 0 when
+   y <> 0 -- every eigenvalue of H is an eigenvalue of A; and Q^T carries the eigen-equation of A to H *)
+Theorem c14_eigenpairs : forall (n : nat) (A H Q : mat R), hessenberg n A = Ok (H, Q) ->
+  (forall (lam : R) (y : nat -> R),
+     (forall i, (i < n)%nat -> Rmv n H y i = lam * y i) ->
+     (forall i, (i < n)%nat -> Rmv n A (Rmv n Q y) i = lam * Rmv n Q y i) /\
+     (forall i, (i < n)%nat -> Rmv n (Rtr Q) (Rmv n Q y) i = y i)) /\
+  (forall (lam : R) (x : nat -> R),
+     (forall i, (i < n)%nat -> Rmv n A x i = lam * x i) ->
+     forall i, (i < n)%nat -> Rmv n H (Rmv n (Rtr Q) x) i = lam * Rmv n (Rtr Q) x i).
+Proof. exact Proofs.HessenAlg.c14_eigenpairs. Qed.
+Check c14_eigenpairs : forall (n : nat) (A H Q : mat R), hessenberg n A = Ok (H, Q) ->
+  (forall (lam : R) (y : nat -> R),
+     (forall i, (i < n)%nat -> Rmv n H y i = lam * y i) ->
+     (forall i, (i < n)%nat -> Rmv n A (Rmv n Q y) i = lam * Rmv n Q y i) /\
+     (forall i, (i < n)%nat -> Rmv n (Rtr Q) (Rmv n Q y) i = y i)) /\
+  (forall (lam : R) (x : nat -> R),
+     (forall i, (i < n)%nat -> Rmv n A x i = lam * x i) ->
+     forall i, (i < n)%nat -> Rmv n H (Rmv n (Rtr Q) x) i = lam * Rmv n (Rtr Q) x i).
+Print Assumptions c14_eigenpairs.
+
 (* ---- non-vacuity ---------------------------------------------------------------- *)
 (* c14_small *)
 Example c14_small_nonvacuous : hessenberg 2 (fun i j => INR (i + j)) = Ok ((fun i j => INR (i + j)), midentity).
